@@ -134,7 +134,8 @@ def k_ovf(c):
         cur[AssetName(bytes.fromhex(n))] = q
     before = (dump_val(out.amount), dict((k.payload.hex(), v) for k, v in cur.data.items()))
     r = guarded(lambda: bool(b._adding_asset_make_output_overflow(
-        out, cur, ScriptHash(bytes.fromhex(c['pid'])), AssetName(bytes.fromhex(c['name'])), c['q'], c['mvs'])))
+        out, cur, ScriptHash(bytes.fromhex(c['pid'])), AssetName(bytes.fromhex(c['name'])), c['q'], c['mvs'],
+        c.get('max_coin', 0))))
     r['unchanged'] = (dump_val(out.amount), dict((k.payload.hex(), v) for k, v in cur.data.items())) == before
     return r
 
